@@ -328,6 +328,85 @@ fn check_driver(c: &DCase, obs: &mut Obs) -> CheckResult {
     Ok(())
 }
 
+/// Output placement into a caller-supplied ndarray view that is strided / reversed: position i of
+/// the *view* (not memory slot i) must hold the token of call i and nothing else may be written. The
+/// view sits inside a sentinel-filled allocation with len + 2 spare elements on either side, so that
+/// an implementation ignoring the stride writes into the padding rather than out of bounds.
+#[derive(Clone, Debug, Serialize, Deserialize)]
+struct VCase {
+    len: usize,
+    w: usize,
+    drv: usize,
+    step: isize,
+    deque_rot: usize,
+}
+
+fn out_view_cases(tier: Tier) -> impl Iterator<Item = VCase> {
+    let max_len = tier.pick(8, 14);
+    let mut v = vec![];
+    for len in 0..=max_len {
+        for w in 1..=len + 2 {
+            for drv in 0..6 {
+                for step in [1isize, 2, 3, -1, -2] {
+                    v.push(VCase { len, w, drv, step, deque_rot: (len + w + drv) % 5 });
+                }
+            }
+        }
+    }
+    v.into_iter()
+}
+
+fn check_out_view(c: &VCase, obs: &mut Obs) -> CheckResult {
+    use std::mem::MaybeUninit;
+    const SENT: i32 = -777;
+    let (len, w) = (c.len, c.w);
+    let (x, y) = (xs(len), ys(len));
+    let dq = make_deque(&x, c.deque_rot);
+    let st = c.step.unsigned_abs();
+    let plen = if len == 0 { 0 } else { (len - 1) * st + 1 };
+    let pad = len + 2;
+    let mut parent: Array1<MaybeUninit<i32>> = Array1::from_elem(plen + 2 * pad, MaybeUninit::new(SENT));
+    let calls = std::cell::Cell::new(0i32);
+    let tok = || {
+        let k = calls.get();
+        calls.set(k + 1);
+        k
+    };
+    let name = ["rolling_apply", "rolling_apply_idx", "rolling2_apply", "rolling2_apply_idx", "rolling_custom", "rolling_apply(vecdeque)"][c.drv];
+    {
+        let view = parent.slice_mut(s![pad..pad + plen;c.step]);
+        let r: Option<Array1<i32>> = match c.drv {
+            0 => x.rolling_apply::<Array1<i32>, i32, _>(w, |_, _| tok(), Some(view)),
+            1 => x.rolling_apply_idx::<Array1<i32>, i32, _>(w, |_, _, _| tok(), Some(view)),
+            2 => x.rolling2_apply::<Array1<i32>, i32, _, _, _>(&y, w, |_, _| tok(), Some(view)),
+            3 => dq.rolling2_apply_idx::<Array1<i32>, i32, _, _, _>(&y, w, |_, _, _| tok(), Some(view)),
+            4 => x.rolling_custom::<Array1<i32>, i32, _>(w, |_| tok(), Some(view)),
+            _ => dq.rolling_apply::<Array1<i32>, i32, _>(w, |_, _| tok(), Some(view)),
+        };
+        if r.is_some() {
+            return fail(format!("out_view:{}:out-path", name), "a value was returned although a buffer was supplied");
+        }
+    }
+    let all: Vec<i32> = parent.iter().map(|v| unsafe { v.assume_init() }).collect();
+    let got: Vec<i32> = parent.slice(s![pad..pad + plen;c.step]).iter().map(|v| unsafe { v.assume_init() }).collect();
+    let want: Vec<i32> = (0..len as i32).collect();
+    if got != want {
+        return fail(format!("out_view:{}:placement", name), format!("{} (len {}, w {}) into an out view with step {}: the view reads {:?}, expected the call numbers {:?}", name, len, w, c.step, got, want));
+    }
+    if all.iter().filter(|v| **v != SENT).count() != len {
+        return fail(format!("out_view:{}:outside-write", name), format!("{} (len {}, w {}) wrote outside its out view (step {})", name, len, w, c.step));
+    }
+    obs.set_nontrivial(len >= 2 && c.step != 1);
+    obs.class(match c.step {
+        1 => "out_view+1",
+        2 => "out_view+2",
+        3 => "out_view+3",
+        -1 => "out_view-1",
+        _ => "out_view-2",
+    });
+    Ok(())
+}
+
 fn small_scope(tier: Tier) -> impl Iterator<Item = DCase> {
     let max_len = tier.pick(9, 12);
     let mut v = vec![];
@@ -377,10 +456,11 @@ fn main() {
     let mut p = Property::new(
         "C02",
         "cases = (series length, window 1..=len+3, driver entry point {rolling_apply, rolling_apply_idx, rolling2_apply, rolling2_apply_idx, their *_to forms, rolling_custom, rolling_custom_to, rolling2_custom, rolling_custom_iter}, input backend {Vec, array, VecDeque rotations, ndarray owned / strided / reversed / mutable views, Arc-wrapped}, output container {Vec, VecDeque, Array1}, returned / caller-buffer path); data are distinct tokens; a recording, stateful callback returns its call number. Model: exactly len calls in position order; new element(s) x[i] (y[i]); removed element / start index Some(i-w+1) when i >= w-1 and None when i < min(w,len)-1 (the final position with w > len is unspecified for the removed argument); slice forms receive exactly x[max(0,i-w+1)..=i] of each series; output has length len and position i holds the token of call i. \
-         EXHAUSTIVE for len 0..=9 (thorough 0..=12) x every window x every driver x every backend kind x output container x path (sub 'small_scope'); random for len up to 120 / 300. Non-trivial = len >= 2 and 2 <= w <= len (a removal is reported); distinct = distinct cells",
+         EXHAUSTIVE for len 0..=9 (thorough 0..=12) x every window x every driver x every backend kind x output container x path (sub 'small_scope'); random for len up to 120 / 300; sub 'out_view_placement' (enumerated, len 0..=8 / 14) writes through strided / reversed ndarray out views inside a padded sentinel buffer. Non-trivial = len >= 2 and 2 <= w <= len (a removal is reported); distinct = distinct cells",
     )
     .assume("Polars inputs are exercised in the Polars binary of C07; Polars output through uset is documented as unsupported (DESIGN 5.7)");
     p.add(sub_enum("small_scope", small_scope, check_driver));
     p.add(sub("random_cells", 20000, 400000, rand_case, check_driver));
+    p.add(sub_enum("out_view_placement", out_view_cases, check_out_view));
     main_for(p);
 }
